@@ -188,6 +188,18 @@ def run(tier, seed):
     res.disagreements_checked = res.traces
     res.trusted += ['hand-written models FF.levelCrossingSeq / FF.peakSeq of astmCounting.py:53-86,131-141 tied by exact correspondence',
                     'np.searchsorted on the sorted level array is modelled as a filter over the sorted list']
+    # (last: a shared default object polluted here must not disturb the streams above)
+    # results are the caller's: histories with and without events, both functions, both output forms
+    core.import_impl()
+    from ffpack import lcc as _lcc
+    import cyc as _cyc
+    _hs = [[1.0, 1.0], [2.0, 2.0, 2.0], [0.2, 0.4], [0.0, 3.0, -2.0, 1.0], [5.0, 5.0], [0.3, 0.1]]
+    _calls = []
+    for _h in _hs:
+        for _agg in (True, False):
+            _calls.append(('astmLevelCrossingCounting', (lambda _h=_h, _agg=_agg: _lcc.astmLevelCrossingCounting(list(_h), aggregate=_agg)), f'{_h} aggregate={_agg}'))
+            _calls.append(('astmPeakCounting', (lambda _h=_h, _agg=_agg: _lcc.astmPeakCounting(list(_h), aggregate=_agg)), f'{_h} aggregate={_agg}'))
+    _cyc.fresh_results(res, _calls)
     return core.finish(res)
 
 
